@@ -690,6 +690,7 @@ def shrink_mapping(d: dict[str, Any], strict: bool, label: str, key: str, budget
 # ----------------------------------------------------------------------------------------------------------------
 
 CORPUS: list[tuple[str, str]] = [
+    ("dependency", "a" * 300 + ".tar.gz"), ("dependency", "a" * 300 + ".whl"), ("dependency", "foo @ " + "a" * 300 + ".tar.gz"),
     ("marker", "os_name == 'a\"b'"), ("marker", "os_name == 'a\\'"), ("marker", 'os_name == "a\\"\'b"'), ("marker", "os_name == 'a\\' and os_name != 'b'"),
     ("marker", "os_name == 'a\\\\b'"), ("marker", 'extra != "a" and extra != "b"'), ("requirement", "foo ; os_name == 'a\"b'"), ("dependency", "foo ; extra != 'a\"b'"),
     ("generic", "!==x"), ("generic", "\"a\" IN"), ("generic", "'a' not\tin"), ("vconstraint", "==1.0a1.dev0.*,<=1.0"),
